@@ -5,10 +5,138 @@ package base
 
 // Contracts for package base (consumed by /verif/govc; comment-only file).
 
+// ---------------------------------------------------------------------------
+// rule entry point: the containment point (C09), flag provenance (C11), locals (C15)
+
 //@ func (*RuleEntity).Execute
 //@   props C09 C11 C15
-//@   requires r != nil
-//@   modifies frame rulerun
-//@   ensures [C11] failnoflag: result.1 != nil ==> !result.2
+//@   recovers
 //@   nopanic
-//@   trusted interpreter contracts pending
+//@   oncall (*RuleContent).Execute
+//@     assert [C15] freshlocals: fresh(arg1) && emptymap(arg1)
+//@   ensures [C11] failnoflag: result.1 != nil ==> !result.2
+//@   modifies frame rulerun
+
+//@ func (*RuleContent).Execute
+//@   props C11 C02 C15
+//@   ensures [C11] failnoflag: result.1 != nil ==> !result.2
+//@   modifies frame evalframe
+
+// ---------------------------------------------------------------------------
+// statements (C02): ghost reference automata advanced at the children's Evaluate calls
+
+//@ func (*Statements).Evaluate
+//@   props C02 C11
+//@   ghost k int = 0
+//@   ghost done bool = false
+//@   ghost cv rv = RV_zero()
+//@   ghost ce error = nil
+//@   ghost cf bool = false
+//@   oncall (*Statement).Evaluate
+//@     assert [C02] inorder: !done && 0 <= k && k < len(s.StatementList) && recv == s.StatementList[k]
+//@     after k := k + 1
+//@     after done := callresult.1 != nil || callresult.2
+//@     after cv := callresult.0
+//@     after ce := callresult.1
+//@     after cf := callresult.2
+//@   oncall (*ReturnStatement).Evaluate
+//@     assert [C02] retlast: !done && k == len(s.StatementList) && recv == s.ReturnStatement && recv != nil
+//@     after done := true
+//@     after cv := callresult.0
+//@     after ce := callresult.1
+//@     after cf := callresult.2
+//@   ensures [C02] stopfirst: done ==> result.1 == ce && (ce != nil ==> !result.2) && (ce == nil ==> result.0 == cv && result.2 == cf)
+//@   ensures [C02] ranall: !done ==> k == len(s.StatementList) && s.ReturnStatement == nil && result.1 == nil && !result.2
+//@   ensures [C11] failnoflag: result.1 != nil ==> !result.2
+//@   modifies frame evalframe
+//@   loopwrites Vars
+//@   loop 0 invariant seq: k == rangeindex + 1 && 0 <= k && k <= len(s.StatementList) && !done
+//@   loop 0 decreases len(s.StatementList) - rangeindex
+
+//@ func (*ReturnStatement).Evaluate
+//@   props C02 C11
+//@   ghost n int = 0
+//@   oncall (*Expression).Evaluate
+//@     assert [C02] once: n == 0 && recv == rs.Expression
+//@     after n := n + 1
+//@   ensures [C11] failnoflag: result.1 != nil ==> !result.2
+//@   ensures [C02] flag: result.1 == nil ==> result.2
+//@   ensures [C02] bare: rs.Expression == nil ==> result.0 == RV_zero() && result.1 == nil && n == 0
+//@   modifies frame evalframe
+
+//@ func (*BreakStmt).Evaluate
+//@   props C02
+//@   ensures [C02] sentinel: result.1 == BREAKFLAG && result.1 != nil
+//@   modifies nothing
+
+//@ func (*ContinueStmt).Evaluate
+//@   props C02
+//@   ensures [C02] sentinel: result.1 == CONTINUEFLAG && result.1 != nil
+//@   modifies nothing
+
+//@ func (*Statement).Evaluate
+//@   props C02
+//@   ensures true
+//@   modifies frame evalframe
+//@   trusted dispatcher contract pending
+
+//@ func (*Expression).Evaluate
+//@   props C01
+//@   ensures result.1 != nil ==> result.0 == RV_zero()
+//@   modifies frame evalframe
+//@   trusted expression contracts pending
+
+//@ func (*ElseStmt).Evaluate
+//@   props C02
+//@   ghost n int = 0
+//@   ghost cv rv = RV_zero()
+//@   ghost ce error = nil
+//@   ghost cf bool = false
+//@   oncall (*Statements).Evaluate
+//@     assert [C02] once: n == 0 && recv == e.StatementList
+//@     after n := n + 1
+//@     after cv := callresult.0
+//@     after ce := callresult.1
+//@     after cf := callresult.2
+//@   ensures [C02] passthrough: n == 1 ==> result.0 == cv && result.1 == ce && result.2 == cf
+//@   ensures [C02] empty: n == 0 ==> e.StatementList == nil && result.1 == nil && !result.2
+//@   modifies frame evalframe
+
+// if / else-if chain / else: exactly the first branch whose condition is true runs (C02)
+//   nexp    conditions evaluated so far (1 = the `if`, k+1 = k-th else-if)
+//   lastc   the last condition evaluated without error and was true;  lerr  it failed
+//   ran     a block was run (at most one)
+//@ func (*IfStmt).Evaluate
+//@   props C02
+//@   ghost nexp int = 0
+//@   ghost lastc bool = false
+//@   ghost lerr bool = false
+//@   ghost ran int = 0
+//@   ghost cv rv = RV_zero()
+//@   ghost ce error = nil
+//@   ghost cf bool = false
+//@   oncall (*Expression).Evaluate
+//@     assert [C02] condorder: ran == 0 && !lerr && !lastc && (nexp == 0 ==> recv == i.Expression) && (nexp > 0 ==> nexp - 1 < len(i.ElseIfStmtList) && recv == i.ElseIfStmtList[nexp - 1].Expression)
+//@     after nexp := nexp + 1
+//@     after lerr := callresult.1 != nil
+//@     after lastc := callresult.1 == nil && rv_bool(callresult.0)
+//@     after ce := callresult.1
+//@   oncall (*Statements).Evaluate
+//@     assert [C02] firsttrue: ran == 0 && lastc && nexp >= 1 && (nexp == 1 ==> recv == i.StatementList) && (nexp > 1 ==> recv == i.ElseIfStmtList[nexp - 2].StatementList)
+//@     after ran := 1
+//@     after cv := callresult.0
+//@     after ce := callresult.1
+//@     after cf := callresult.2
+//@   oncall (*ElseStmt).Evaluate
+//@     assert [C02] elselast: ran == 0 && !lastc && !lerr && nexp == 1 + len(i.ElseIfStmtList) && recv == i.ElseStmt && recv != nil
+//@     after ran := 1
+//@     after cv := callresult.0
+//@     after ce := callresult.1
+//@     after cf := callresult.2
+//@   ensures [C02] outcome: ran == 1 ==> result.0 == cv && result.1 == ce && result.2 == cf
+//@   ensures [C02] conderr: ran == 0 && lerr ==> result.1 == ce && result.1 != nil && !result.2
+//@   ensures [C02] nothing: ran == 0 && !lerr ==> result.1 == nil && !result.2 && nexp >= 1 && ((lastc && nexp == 1 && i.StatementList == nil) || (!lastc && nexp == 1 + len(i.ElseIfStmtList) && i.ElseStmt == nil))
+//@   modifies frame evalframe
+//@   loopwrites Vars
+//@   loop 0 invariant chain: nexp == rangeindex + 2 && 1 <= nexp && nexp <= 1 + len(i.ElseIfStmtList) && ran == 0 && !lerr && !lastc
+//@   loop 0 decreases len(i.ElseIfStmtList) - rangeindex
